@@ -158,10 +158,15 @@ _pb("C20", "contract-based deductive verification (pyvc + cvc5 strings) of parse
     "All obligations discharged for every string (no length bound).",
     "every clause of the property is a discharged obligation or lemma; claimed as 'other' rather than 'proof' because the "
     "evidence also carries the bounded cross-check and the string theory (isdigit uninterpreted, SMT strings) is trusted")
-PROPS["C02"]["technique"] = "contract-based deductive verification (pyvc) of export_tabs and export_format (over the contract of get_label); bounded stand-in (independent decoders) for the writers"
+PROPS["C02"]["technique"] = "contract-based deductive verification (pyvc) of export_tabs, export_format (over the contract of get_label), treeoutput.brackets (refusal of discontinuous trees, over the contract of gap_degree) and treeoutput.terminals (loop invariant over the text written so far); bounded stand-in (independent decoders) for the writers"
 PROPS["C02"]["explanation"] = ("export_tabs proved against the documented tab-stop table for every length (counter-models are replayed on the "
                                "real function); export_format proved to produce word TABS [lemma TABS] label TAB morph TABS edge TAB parent NEWLINE "
-                               "with '--' for absent fields and to store nothing else; the writers as a whole are bounded only.")
+                               "with '--' for absent fields and to store nothing else; treeoutput.brackets raises ValueError exactly when some node of the tree "
+                               "has a positive set-based gap degree and brackets_skipdisco is absent, writes nothing when it skips and otherwise "
+                               "the text of write_brackets_subtree followed by one newline; treeoutput.terminals raises ValueError exactly for "
+                               "terminals_pos + pos_only and otherwise appends, per token in order, the POS tag / the word / word-separator-tag "
+                               "followed by a blank (newline with terminals_one), then a newline (streams are modelled as the text written so far). "
+                               "write_brackets_subtree, the export / TIGER-XML / discobrackets writers as a whole are bounded only.")
 
 _pb("C05", "contract-based deductive verification (pyvc) of the grouping loop of boyd_split (loop invariant over a list of lists), of the selection loop of raising and of the re-attachment steps of boyd_split and raising as block contracts; bounded stand-in against the reference ref_raise",
     "The grouping loop of boyd_split is proved, for every well-formed node, to partition the children (ordered by leftmost "
@@ -193,12 +198,19 @@ _pb("C15", "contract-based deductive verification (pyvc) of negra_mark_heads, of
     "every clause of the property is a discharged obligation; claimed as 'other' because the evidence also carries the "
     "bounded cross-check and because str.lower / str.split / the ghost theory of well-formed trees are trusted")
 
-_pb("C01", "contract-based deductive verification (pyvc) of export_parse_line (field map, v3/v4 detection, raises clauses, gf_split over the contract of parse_label); bounded stand-in (independent decoders, exhaustive bracket token-class sequences) for the readers",
+_pb("C01", "contract-based deductive verification (pyvc) of export_parse_line (field map, v3/v4 detection, raises clauses, gf_split over the contract of parse_label), of one step of the bracket automaton (loop body of treeinput.brackets: invariant, safety, unreachable branches, per-sentence reset) and of the sentence-closing block of treeinput.export, as block contracts; bounded stand-in (independent decoders, exhaustive bracket token-class sequences) for the readers",
     "export_parse_line is proved for every line: the six fields are the whitespace-separated columns (dummy lemma inserted for "
     "three-column files), parent_num is the integer of the last column, IndexError iff fewer than five columns, ValueError iff "
     "too few fields / non-integer / out-of-range parent, and with gf_split label and edge are rebuilt from the named result of "
-    "parse_label. The readers as generators (files, automaton, tree building) are bounded only.",
-    "proof for the export field map, bounded stand-in for the readers; 'other'")
+    "parse_label. One step of the bracket automaton (the real body of the lexer loop of treeinput.brackets, for every state, "
+    "stack, counter and token class, parameter sets without disco / replace_parens) keeps the invariant state in {0,1,2,3,4,5,9}, "
+    "level == len(stack), state == 0 iff level == 0, token counter >= 1, raises only ValueError, never reaches an 'unknown "
+    "state' branch, never indexes the stack out of range, yields at most one tree (the bottom of the stack, with the current "
+    "sentence id) and then resets stack / state / level / token counter and advances the sentence counter by one. The block "
+    "that closes a sentence in treeinput.export sets the sentence id (count with `continuous`, else the #BOS number), yields "
+    "exactly that tree and resets the per-sentence state. The lexer, tree building and the readers as generators over files "
+    "are bounded only.",
+    "proof for the export field map, the automaton step and the two reset blocks, bounded stand-in for the readers; 'other'")
 _pb("C07", "contract-based deductive verification (pyvc) of LabelGenerator.next (fresh labels: counter strictly increasing); bounded stand-in (compose of binarization chains, exhaustive rule space) for binarization",
     "LabelGenerator.next returns '@' + decimal(counter+1) + 'X' and increments the counter by one (so deterministic "
     "binarization labels are pairwise distinct). That binarization preserves the yield function is bounded only.",
@@ -212,11 +224,17 @@ _pb("C10", "contract-based deductive verification (pyvc) of transitions.topdown 
     "token. That replaying rebuilds the tree, and the gap system, are bounded only.",
     "proof of the shape of the top-down and in-order sequences, replay soundness bounded; 'other'")
 
-_pb("C06", "contract-based deductive verification (pyvc) of the counting block of grammar.extract as a block contract (one occurrence added, nothing else changed); bounded stand-in (instantiate-and-compare oracle, reference grammar) for the extracted rules",
+_pb("C06", "contract-based deductive verification (pyvc) of four blocks of grammar.extract as block contracts: the counting block (one occurrence added, nothing else changed), the bare rule + token map, the shape of the linearization (one argument per terminal block), the vertical context; bounded stand-in (instantiate-and-compare oracle, reference grammar) for the extracted rules",
     "The counting block of extract adds exactly one occurrence to the entry (rule, linearization, vertical context) and "
-    "changes no other entry (block contract on the real statements over an arbitrary nested dict). Which rule is counted "
-    "-- labels in order of leftmost token, linearization, fan-outs, vertical context -- is bounded only.",
-    "block contract proved, the extracted rules bounded; 'other'")
+    "changes no other entry (block contract on the real statements over an arbitrary nested dict). For every constituent of "
+    "every well-formed tree: the bare rule is the label of the node followed by the labels of its children in order of their "
+    "least token, and the token map sends exactly the numbers of the tokens below the k-th child to k (nested loops; lemmas "
+    "distinct_numbers, tokens_have_places over the tree theory); the linearization has exactly one argument per terminal block "
+    "(= set-based gap degree + 1, over the contract of terminal_blocks), no argument is empty, every element refers to an "
+    "existing right-hand-side position, neighbours differ, no KeyError / IndexError; the vertical context has one entry per "
+    "dominating node, bottom-up, label followed by the decimal block count. That the linearization instantiates to the yield "
+    "of the node (the within-position counters), the lexicon and extraction over whole treebanks are bounded only.",
+    "block contracts proved, the yield-instantiation of the extracted rules bounded; 'other'")
 _pb("C08", "contract-based deductive verification (pyvc) of the five counting blocks of binarize_rule and extract as block contracts (count = previous count + amount, no other entry changes); bounded stand-in for the conservation equations",
     "Each of the four counting blocks of binarize_rule and the one of extract is located in the real AST and proved on an "
     "arbitrary nested dict: afterwards the entry holds its previous count (0 if absent) plus the amount and no other entry "
@@ -236,14 +254,17 @@ _pb("C14", "contract-based deductive verification (pyvc) of the loop bodies of _
     "recursion, the final two children of binarization, the rejection of unmarked nodes and the round trips are bounded only.",
     "block contracts proved for one iteration of each of the three loops, the property itself bounded; 'other'")
 PROPS["C16"]["technique"] = ("contract-based deductive verification (pyvc VCs from the real AST, z3) of gap_degree_node, has_gaps, gap_type, "
-                             "terminal_blocks, gap_degree, SentenceCount.run, PosTags.run, GapDegree.run, disco_order (recursion) + bounded "
-                             "stand-in for the printed reports, the three-way agreement and 'identity order for a continuous tree'")
+                             "terminal_blocks, gap_degree, SentenceCount.run, PosTags.run, GapDegree.run, disco_order (recursion), lemma three_way "
+                             "over the contracts of gap_degree, treeoutput.brackets (C02) and the linearization block of grammar.extract (C06) + bounded "
+                             "stand-in for the printed reports and 'identity order for a continuous tree'")
 PROPS["C16"]["explanation"] = ("Proved for all inputs: gap_degree_node == set-based gap degree, has_gaps, gap_type classification, "
                                "terminal_blocks partitions T(node) into its maximal runs in order with |blocks| = gap degree + 1, "
                                "gap_degree is the maximum over the nodes in preorder, the counting tasks add exactly one per sentence / "
                                "token tag / gap degree class (loop invariants and recursive count specs, no bound). The contracts of "
                                "trees.preorder, trees.terminals and trees.children used at call sites are verified under C19. disco_order of a binarized tree lists exactly the tokens below the node, each once "
-                               "(both modes; recursion with a decreasing rank). Printed reports, the three-way agreement and that the reordering "
+                               "(both modes; recursion with a decreasing rank). Lemma three_way: gap_degree(tree) > 0 iff the bracket writer's refusal "
+                               "condition holds iff the linearization block of extract builds more than one argument for some constituent below "
+                               "the tree (is_contextfree / fan_out themselves are not under contract). Printed reports and that the reordering "
                                "is the identity on continuous trees are bounded only.")
 PROPS["C19"]["technique"] = ("contract-based deductive verification (pyvc, read-only heap with ghost depth/anc/pos/rank) of terminals, children, "
                              "preorder, postorder, levels, right_sibling, left_sibling, dominance, lca + lemmas (siblings inverse, lca lowest; two "
